@@ -79,8 +79,8 @@ def history_prefix(h, ln):
     return ".".join(h.split(".")[:max(1, ln - 1)])
 
 
-def reproduce_and_minimise(found):
-    """found: [(kind, history, clause)].  Two batched rounds: (1) the history itself (reproducibility: the same history
+def reproduce_and_minimise(found, shorten=None):
+    """found: [(kind, history, clause)]; shorten[f]: also minimise finding f.  Two batched rounds: (1) the history itself (reproducibility: the same history
     must fail the same clause again) and every single-call deletion, (2) all deletable calls removed at once.
     Returns [(history, observed line, raw events)]"""
     cands, owner = [], []
@@ -88,7 +88,7 @@ def reproduce_and_minimise(found):
         toks = h.split(".")
         cands.append((k, h))
         owner.append((f, -1))
-        for i in range(len(toks)):
+        for i in range(len(toks) if shorten is None or shorten[f] else 0):
             cands.append((k, ".".join(toks[:i] + toks[i + 1:])))
             owner.append((f, i))
     res = batch_judge(cands, "C19_min1")
@@ -101,6 +101,13 @@ def reproduce_and_minimise(found):
                 raise vlib.Broken("violation %s did not reproduce on re-execution of %s %s" % (clause, k, h))
         elif fails(r, clause):
             removable[f].append(i)
+    if not any(removable):
+        out = []
+        for (f, i), r in zip(owner, res):
+            if i < 0:
+                at = [x for x in r[2] if x[0] == found[f][2]][0][1]
+                out.append((found[f][1], r[1][at - 1], r[0]))
+        return out
     second = []
     for f, (k, h, clause) in enumerate(found):
         toks = h.split(".")
@@ -205,7 +212,7 @@ def run(pid, tier, seed, replay=None):
             if V.drift > 5:
                 continue
             log("SPEC-DRIFT component=counters kind=%s what=%s line=%s history=%s" % (k, items[0][0], describe_line(lines[j][items[0][1] - 1]), h))
-        reported, found, where = {}, [], []
+        reported, found, where, where_ln = {}, [], [], []
         for j, items in sorted(bad.items()):
             k, h = hists[j]
             clause, ln = sorted(items, key=lambda x: x[1])[0]
@@ -217,7 +224,12 @@ def run(pid, tier, seed, replay=None):
                 continue
             found.append((k, history_prefix(h, ln), clause))
             where.append(j)
-        for (k, hp, clause), j, (hm, obs, ex3) in zip(found, where, reproduce_and_minimise(found)):
+            where_ln.append(ln)
+        # witnesses of a recorded finding are re-executed (reproducibility) but not shortened
+        known = vlib.load_known(pid)
+        shorten = [vlib.match_known(known, "%s: %s %s; history=%s observed={\"k\":\"%s\",\"has\":false" % (clause, k, DESCR.get(clause, clause), hp,
+                                    lines[j][ln0 - 1]["k"])) is None for (k, hp, clause), j, ln0 in zip(found, where, where_ln)]
+        for (k, hp, clause), j, (hm, obs, ex3) in zip(found, where, reproduce_and_minimise(found, shorten)):
             rp = vlib.save_replay(pid, "%s_%s_%d.json" % (clause, k, j), {"layer": "hist", "kind": k, "history": hm, "clause": clause, "observed": obs, "original_history": hists[j][1], "trace": ex3[:200]})
             V.violation("%s: %s %s; history=%s observed=%s" % (clause, k, DESCR.get(clause, clause), hm, describe_line(obs)), rp)
         V.extra["L1_failures_by_clause_kind"] = {"%s/%s" % k: n for k, n in reported.items()}
